@@ -109,6 +109,9 @@ class Normaliser:
         if _dump(self.tree) == _dump(self.ref):
             return self.stats
         self._inline_new_constants()
+        self.mod_consts_f = _module_literals(self.tree)
+        self.mod_consts_r = _module_literals(self.ref)
+        self._inline_new_class_constants()
         self._pair_renamed_functions()
         ff, rf = _funcs(self.tree), _funcs(self.ref)
         self.ff, self.rf = ff, rf
@@ -258,6 +261,40 @@ class Normaliser:
                                                             and s.targets[0].id in new)]
         self.stats["constants_inlined"] = sorted(new)
 
+    def _inline_new_class_constants(self):
+        """class attributes bound to an immutable literal that the reviewed class does not have: `self.NAME` / `Class.NAME` become the literal"""
+        rclasses = {c.name: c for c in ast.walk(self.ref) if isinstance(c, ast.ClassDef)}
+        done = []
+        for c in [x for x in ast.walk(self.tree) if isinstance(x, ast.ClassDef)]:
+            rc = rclasses.get(c.name)
+            if rc is None:
+                continue
+            rnames = {t.id for st in rc.body if isinstance(st, ast.Assign) for t in st.targets if isinstance(t, ast.Name)}
+            new = {}
+            for st in c.body:
+                if isinstance(st, ast.Assign) and len(st.targets) == 1 and isinstance(st.targets[0], ast.Name) and st.targets[0].id not in rnames and _immutable_literal(st.value):
+                    new[st.targets[0].id] = st.value
+            if not new:
+                continue
+            # never assigned through an instance / the class anywhere in the module
+            for n in ast.walk(self.tree):
+                if isinstance(n, ast.Attribute) and isinstance(n.ctx, (ast.Store, ast.Del)) and n.attr in new:
+                    new.pop(n.attr, None)
+            if not new:
+                continue
+
+            class T(ast.NodeTransformer):
+                def visit_Attribute(self, node):
+                    node = self.generic_visit(node)
+                    if isinstance(node.ctx, ast.Load) and node.attr in new and isinstance(node.value, ast.Name) and node.value.id in ("self", "cls", c.name):
+                        return copy.deepcopy(new[node.attr])
+                    return node
+            T().visit(self.tree)
+            c.body = [st for st in c.body if not (isinstance(st, ast.Assign) and len(st.targets) == 1 and isinstance(st.targets[0], ast.Name) and st.targets[0].id in new)] or [ast.Pass()]
+            done.extend("%s.%s" % (c.name, k) for k in new)
+        if done:
+            self.stats["class_constants_inlined"] = sorted(done)
+
     def _only_regex_methods(self, name):
         parents = {}
         for n in ast.walk(self.tree):
@@ -311,7 +348,13 @@ class Normaliser:
                 self._left(q, "signature differs", fnode)
                 return
             fnode.args = copy.deepcopy(rnode.args)
-        ctx = {"q": q, "fnode": fnode, "rnode": rnode, "env_f": self._closure_env(outer_f, fnode), "env_r": self._closure_env(outer_r, rnode),
+        ef, er = self._closure_env(outer_f, fnode), self._closure_env(outer_r, rnode)
+        for env, consts, fn in ((ef, self.mod_consts_f, fnode), (er, self.mod_consts_r, rnode)):
+            bound = {n.id for n in ast.walk(fn) if isinstance(n, ast.Name) and isinstance(n.ctx, (ast.Store, ast.Del))} | {a.arg for a in fn.args.posonlyargs + fn.args.args + fn.args.kwonlyargs}
+            for k, v in consts.items():
+                if k not in bound:
+                    env.setdefault(k, v)
+        ctx = {"q": q, "fnode": fnode, "rnode": rnode, "env_f": ef, "env_r": er,
                "outer_f": outer_f, "outer_r": outer_r}
         self._block(fnode.body, rnode.body, ctx, in_loop=False, tail="return")
 
@@ -831,6 +874,21 @@ def _immutable_literal(v):
     if isinstance(v, ast.Name):
         return False
     return False
+
+
+def _module_literals(tree):
+    """module-level names bound exactly once to an immutable literal"""
+    out, counts = {}, Counter()
+    for s in tree.body:
+        if isinstance(s, ast.Assign) and len(s.targets) == 1 and isinstance(s.targets[0], ast.Name):
+            counts[s.targets[0].id] += 1
+            if _immutable_literal(s.value):
+                out[s.targets[0].id] = s.value
+    for n in ast.walk(tree):
+        if isinstance(n, ast.Global):
+            for g in n.names:
+                counts[g] += 1
+    return {k: v for k, v in out.items() if counts[k] == 1}
 
 
 def _compiled_regex(v):
